@@ -279,7 +279,7 @@ func itemsFromParseYAML(b []byte) ([]grammar.Item, error) {
 	return out, nil
 }
 
-var charAlphabet = []string{"C", "R", "1", "0", "m", "#", "b", "/", "[", "]", ",", "_", "{", "}", "=", "k", ";", " ", "\n"}
+var charAlphabet = []string{"C", "R", "1", "0", "m", "#", "b", "/", "[", "]", ",", "_", "{", "}", "=", "k", ";", " ", "\n", "１", "\r"}
 
 var tokenKinds = []string{"SYLLABLE", "SLASH", "LBRA", "RBRA", "COMMA", "SHARP", "FLAT", "NUMBER", "SYMBOL", "REST", "UNDERSCORE", "LCBRA", "RCBRA", "EQUAL", "METADATA"}
 
@@ -357,7 +357,7 @@ func renderKinds(kinds []string, r *rand.Rand) string {
 }
 
 func checkC04(c *core.Ctx) {
-	c.Rule("differential against an independent recogniser (reference tokenizer + Earley over the rules extracted from the current chords.y): (1) every string over a 19-symbol alphabet up to length 4 (quick) / 5 (thorough); (2) every sequence of token kinds up to length 4 / 6 rendered with canonical lexemes; (3) every grammar sentence up to 11 / 13 tokens plus all single-token deletions, insertions, substitutions, swaps, duplications and every proper byte prefix; (4) long generated pieces with random trivia whose tree is compared field by field with what was written; (5) goyacc regenerated from chords.y and compared byte for byte with the committed parser. " +
+	c.Rule("differential against an independent recogniser (reference tokenizer + Earley over the rules extracted from the current chords.y): (1) every string over a 21-symbol alphabet (incl. a non-ASCII digit and CR) up to length 4 (quick) / 5 (thorough); (2) every sequence of token kinds up to length 4 / 6 rendered with canonical lexemes; (3) every grammar sentence up to 11 / 13 tokens plus all single-token deletions, insertions, substitutions, swaps, duplications and every proper byte prefix; (4) long generated pieces with random trivia whose tree is compared field by field with what was written; (5) goyacc regenerated from chords.y and compared byte for byte with the committed parser. " +
 		"Library level (ast.Parse in a worker process) with a seeded sample repeated through `crd text parse`. non-trivial = input with >= 3 tokens; distinct by input string")
 	c.Assume("grammar.Tokenize implements the documented tokenisation (DESIGN.md section 4, C04)", "grammar.ParseYacc extracts the rules of the current chords.y", "Earley recogniser", "token positions and numeric token codes are not part of the property")
 
@@ -483,6 +483,21 @@ func checkC04(c *core.Ctx) {
 			mine = append(mine, []byte(txt))
 		}
 		judgeParse(c, g, "long", i, mine, true, "long")
+	})
+	// trivia and separators injected at arbitrary byte positions of valid texts (also inside tokens,
+	// after `_`, inside {}): the reference decides what each result means
+	c.Stream("inject", c.N(40, 600), func(i int, r *rand.Rand) {
+		var mine [][]byte
+		inj := []string{" ", "\n", "\t", "\r", "\r\n", ";c\n", ";", ";a\n;b\n", "\u00a0", "\u3000", "\f", "\v", "_", "/", "[", "]", "{", "}", "=", ",", "#", "b", "♯", "１", "٣", "0"}
+		for k := 0; k < 60; k++ {
+			b := []byte(randomChordText(r, 1+r.Intn(3), r.Intn(2) == 0))
+			for m := 0; m < 1+r.Intn(2); m++ {
+				pos := r.Intn(len(b) + 1)
+				b = append(b[:pos], append([]byte(inj[r.Intn(len(inj))]), b[pos:]...)...)
+			}
+			mine = append(mine, b)
+		}
+		judgeParse(c, g, "inject", i, dedup(mine), true, "inject")
 	})
 	// invalid UTF-8 and odd runes: accept/reject only
 	c.Stream("bytes", c.N(8, 64), func(i int, r *rand.Rand) {
